@@ -415,6 +415,10 @@ class World(object):
                 for k, v in defaults:
                     object.__setattr__(self, k, _fresh(v))
             ns = {"__init__": __init__, "__module__": d["module"], "_verif_cid": cid}
+            if d["module"] == MAIN and len(d["name"]) % 3:
+                # locally registered classes are often declared in an inner scope (a function, another class): there
+                # __qualname__ differs from __name__; the class is still registered and named by its simple name
+                ns["__qualname__"] = ("make_beans.<locals>." if len(d["name"]) % 3 == 1 else "Holder.") + d["name"]
             if kind == "slot":
                 # private names are mangled by the class body of a real class statement; type() does not
                 # mangle, so the descriptors are created under the mangled name and __slots__ is rewritten
